@@ -1881,14 +1881,14 @@ func (r stack) defaultAssertionHandler(x any) (str string) {
 	// stackage.
 	if Xs, _ := stackTypeAliasConverter(x); Xs.IsInit() {
 		ik, ic := Xs.stack.typ() // make note of inner stack type
-		if ic == not && len(Xs.getSymbol()) == 0 {
+		if str = Xs.String(); ic == not && len(Xs.getSymbol()) == 0 && len(str) > 0 {
 			// Handle NOTs a little differently
 			// when nested and when not using
-			// symbol operators ...
+			// symbol operators ... but never
+			// leave a dangling operator if the
+			// NOT stack rendered as nothing.
 			ik = foldValue(Xs.positive(cfold), ik)
-			str = ik + ` ` + Xs.String()
-		} else {
-			str = Xs.String()
+			str = ik + ` ` + str
 		}
 
 	} else if Xc, _ := conditionTypeAliasConverter(x); Xc.IsInit() {
